@@ -46,6 +46,10 @@ ASSUMPTIONS = [
     "whose first characters occur in 'RSA1024:' / 'ED25519-V3:' can be supplied; create() of an authenticated v2 service cannot complete there "
     "and is not judged) and auth-service-id-not-derived-from-key (the ServiceID returned for a BasicAuth service is not the hash of its key; "
     "HS_DESC events name the key-derived id); the per-ADD_ONION / DEL_ONION oracle is unchanged in both",
+    "cells with remove_plan: Tor answers DEL_ONION with 552 / 551 (scripted, the service stays in the reference Tor) and the caller calls "
+    "remove() again; a remove() call may fail, but one that reports success must itself have sent DEL_ONION <ServiceID> and got 250, and the "
+    "reference Tor must no longer hold the service. A remove() after a successful one is not generated (sending DEL_ONION again or "
+    "answering from memory are both acceptable)",
     "cells with tor_best=ED25519-V3: the reference Tor answers NEW:BEST with a version-3 key and a 56-character ServiceID although the "
     "client noted version 2 (what current Tors do); address and DEL_ONION must be the ServiceID Tor assigned",
     "cells with async_port_lookup: stopListening() of the probe listener used to find a free local port completes on a later reactor turn "
@@ -80,7 +84,7 @@ ANCHORS = [
 FLOORS = {
     "quick": {"evaluations": 1500, "add_onion_decoded": 800, "del_onion_decoded": 600, "custody_snapshots": 3000,
               "crlf_cells_checked": 500, "hostname_compared": 600, "generated_key_retention_checked": 150,
-              "history_creations": 120, "request_objects_compared": 300, "caller_mutated_arguments_after_call": 20, "async_port_lookup_turns": 5,
+              "history_creations": 120, "request_objects_compared": 300, "caller_mutated_arguments_after_call": 20, "async_port_lookup_turns": 5, "remove_calls_failed": 5,
               "reach:txtorcon.onion:_add_ephemeral_service": 1000,
               "reach:txtorcon.onion:_validate_single_port_string": 1500},
     "thorough": {"evaluations": 3000, "add_onion_decoded": 2000, "del_onion_decoded": 1500, "custody_snapshots": 6000,
@@ -160,6 +164,15 @@ def all_cells():
         yield {"route": "auth", "version": 2, "key": key, "detach": detach, "single_hop": False,
                "auth": a, "clients": auth_clients(a), "ports_id": pl, "ports": PORT_LISTS[pl], "await_all": aw,
                "server_variant": "auth-service-id-not-derived-from-key"}
+    # removal refused by Tor (552 Unknown Onion Service id / 551), the caller calls remove() again
+    for route, version, key, plan in itertools.product(
+            ROUTES, (2, 3), ("none", "bare"), (["552", "ok"], ["551", "ok"], ["552", "551", "ok"], ["552", "552"])):
+        if route == "auth" and version == 3:
+            continue
+        a = "b2" if route == "auth" else None
+        yield {"route": route, "version": version, "key": key, "detach": False, "single_hop": False,
+               "auth": a, "clients": auth_clients(a) if a else None, "ports_id": "str", "ports": PORT_LISTS["str"],
+               "await_all": False, "remove_plan": plan}
     # Tor's choice for NEW:BEST is an ED25519-V3 key (current Tors) although the client noted version 2:
     # the address Tor returns is 56 characters; create -> complete -> remove
     for route, key, detach, pl, aw in itertools.product(("eph", "tor"), ("none", "discard"), (False, True), SMALL_PORTS, (False, True)):
@@ -725,8 +738,9 @@ def run_cell(cell, rec, probe=False, ctx=None, objs=None, extra_class=None, inje
             V("add-onion-count-%d" % n_add, {"lines": mine()})
         # ---- removal --------------------------------------------------------------------------
         if remove:
-            bad += remove_service(ctx, cell, rec, svc, sid, V, snap)
-        stray = [(l, c) for (l, c, _) in tor.replies[rep_before:] if c >= 500 and not l.startswith("GETINFO onions/")]
+            bad += remove_service(ctx, cell, rec, svc, sid, V, snap, plan=cell.get("remove_plan"))
+        stray = [(l, c) for (l, c, _) in tor.replies[rep_before:] if c >= 500 and not l.startswith("GETINFO onions/")
+                 and not (cell.get("remove_plan") and l.startswith("DEL_ONION"))]
         if stray:
             V("command-refused-by-tor", {"refused": stray})
         if link.exceptions:
@@ -742,38 +756,67 @@ def run_cell(cell, rec, probe=False, ctx=None, objs=None, extra_class=None, inje
             rec.count("logged_errors", n)
 
 
-def remove_service(ctx, cell, rec, svc, sid, V, snap=None):
-    """svc.remove() and its oracle: exactly one DEL_ONION <sid>, nothing else but SETEVENTS"""
+def remove_service(ctx, cell, rec, svc, sid, V, snap=None, plan=None):
+    """svc.remove() and its oracle.  plan = what Tor answers to the successive remove() calls, e.g.
+    ["552", "ok"]: the first DEL_ONION is refused, the caller tries again.  Per call: a DEL_ONION that is sent
+    names exactly the assigned ServiceID; a remove() that reports success has had Tor's 250 for a DEL_ONION
+    sent by THIS call, and the reference Tor no longer has the service; nothing else but SETEVENTS is written."""
     tor, link, aud = ctx.tor, ctx.link, ctx.aud
-    before = len(tor.lines)
-    try:
-        dr = svc.remove()
-    except Exception as e:
-        V("remove-raised", {"exc": repr(e)})
-        return []
-    orm = aud.watch(dr, "remove")
-    link.pump()
-    if snap:
-        snap("after-remove")
-    ctx.services = [(s, i) for (s, i) in ctx.services if s is not svc]
-    dels = [l for l in tor.lines[before:] if l.upper().startswith("DEL_ONION")]
-    others = [l for l in tor.lines[before:] if not l.upper().startswith("DEL_ONION")
-              and not l.startswith("SETEVENTS ")]
-    if len(dels) != 1:
-        V("del-onion-count-%d" % len(dels), {"lines": tor.lines[before:]})
-    else:
-        rec.count("del_onion_decoded")
+    plan = list(plan or ["ok"])
+    for step, answer in enumerate(plan):
+        before = len(tor.lines)
+        dlog = len(tor.del_onion_log)
+        ex = None if len(plan) == 1 else ("removal-call-%d-after-%s" % (step + 1, "+".join(plan[:step]) or "nothing"))
+        if answer != "ok":
+            text = {"552": "Unknown Onion Service id", "551": "Failed to remove Onion Service"}.get(answer, "refused")
+            tor.script("DEL_ONION", (int(answer), [("end", text)]))
         try:
-            got_sid = AO.parse_del_onion(dels[0][len("DEL_ONION "):])
-        except AO.AddOnionError as e:
-            got_sid = None
-            V("del-onion-malformed", {"line": dels[0], "error": str(e), "service_id": sid})
-        if got_sid is not None and got_sid != sid:
-            V("del-onion-wrong-service", {"line": dels[0], "service_id": sid})
-        if got_sid == sid and not (orm.fired == 1 and orm.ok):
-            V("remove-did-not-succeed", {"outcome": str(orm.describe())[:200]})
-    if others:
-        V("unexpected-line-on-removal", {"lines": others})
+            dr = svc.remove()
+        except Exception as e:
+            V("remove-raised", {"exc": repr(e)}, extra=ex)
+            return []
+        orm = aud.watch(dr, "remove")
+        link.pump()
+        rec.count("remove_calls")
+        if snap:
+            snap("after-remove")
+        dels = [l for l in tor.lines[before:] if l.upper().startswith("DEL_ONION")]
+        others = [l for l in tor.lines[before:] if not l.upper().startswith("DEL_ONION")
+                  and not l.startswith("SETEVENTS ")]
+        got_sid = None
+        if len(dels) > 1:
+            V("del-onion-count-%d" % len(dels), {"lines": tor.lines[before:]}, extra=ex)
+        elif dels:
+            rec.count("del_onion_decoded")
+            try:
+                got_sid = AO.parse_del_onion(dels[0][len("DEL_ONION "):])
+            except AO.AddOnionError as e:
+                V("del-onion-malformed", {"line": dels[0], "error": str(e), "service_id": sid}, extra=ex)
+            if got_sid is not None and got_sid != sid:
+                V("del-onion-wrong-service", {"line": dels[0], "service_id": sid}, extra=ex)
+        succeeded = orm.fired == 1 and orm.ok
+        if orm.fired != 1:
+            V("remove-did-not-finish", {"outcome": str(orm.describe())[:200], "lines": tor.lines[before:]}, extra=ex)
+        elif succeeded:
+            accepted = len(tor.del_onion_log) > dlog and tor.del_onion_log[-1]["code"] == 250 \
+                and tor.del_onion_log[-1]["service_id"] == sid
+            if not dels:
+                V("remove-reported-success-without-del-onion", {"lines": tor.lines[before:], "tor_still_has_service": sid in tor.onions}, extra=ex)
+            elif answer != "ok":
+                V("remove-reported-success-although-tor-refused", {"line": dels[0], "answer": answer}, extra=ex)
+            elif got_sid == sid and not accepted:
+                V("remove-reported-success-without-tors-250", {"line": dels[0]}, extra=ex)
+            if sid in tor.onions and dels and answer == "ok" and got_sid == sid:
+                V("service-still-in-tor-after-successful-remove", {"service_id": sid}, extra=ex)
+        else:
+            rec.count("remove_calls_failed")
+            if answer == "ok" and got_sid == sid:
+                V("remove-did-not-succeed", {"outcome": str(orm.describe())[:200]}, extra=ex)
+            if answer == "ok" and not dels:
+                V("del-onion-count-0", {"lines": tor.lines[before:], "outcome": str(orm.describe())[:200]}, extra=ex)
+        if others:
+            V("unexpected-line-on-removal", {"lines": others}, extra=ex)
+    ctx.services = [(s, i) for (s, i) in ctx.services if s is not svc]
     return []
 
 
@@ -863,6 +906,8 @@ def random_cell(rnd):
         if version == 3:
             import base64
             cell["adv_blob"] = base64.b64encode(base64.b64decode(cell["adv_blob"][:86] + "==")).decode("ascii")
+    if rnd.random() < 0.15:
+        cell["remove_plan"] = [rnd.choice(["552", "551"]) for _ in range(rnd.randint(1, 3))] + ["ok"]
     if rnd.random() < 0.1:
         cell["caller_mutates_after_call"] = True
     if rnd.random() < 0.3:
